@@ -654,8 +654,23 @@ def _bag(ctx, prog):
                           tm.is_const(sec.args[1][0].args[2], 1)) or
                          is_call_to(sec.args[1][0], "math.floor",
                                     "numpy.floor"))
+    one = lambda z: tm.is_const(z) and not isinstance(
+        z.args[1], bool) and z.args[1] == 1
+
+    def dm(x: T, k: int) -> bool:
+        # divmod(stamp, 1)[k] in floating point
+        return x.op == "sub" and tm.is_const(x.args[1], k) and \
+            is_call_to(x.args[0], "builtins.divmod") and \
+            len(x.args[0].args[1]) == 2 and \
+            x.args[0].args[1][0] is stamp and one(x.args[0].args[1][1])
+    if not floor_ok and is_call_to(sec, "builtins.int") and sec.args[1] \
+            and dm(sec.args[1][0], 0):
+        floor_ok = True
     rem = T("binop", "Sub", stamp, sec)
-    from_rem = any(x is rem for x in nsec.walk()) and any(
+    from_rem = any(
+        x is rem or dm(x, 1) or
+        (x.op == "binop" and x.args[0] == "Mod" and x.args[1] is stamp and
+         one(x.args[2])) for x in nsec.walk()) and any(
         tm.is_const(x) and x.args[1] == 1e9 for x in nsec.walk())
     full_scaled = any(x.op == "binop" and x.args[0] == "Mult" and
                       stamp in (x.args[1], x.args[2]) and any(
